@@ -19,8 +19,8 @@ MCFold == [a |-> "a", A |-> "a", b |-> "b"]
 MCVersions == [v1 |-> {"G1", "S1"}, v2 |-> {"G2", "S1"}]
 ====
 """
-CONSTS = {"Names": '{"a", "A", "b"}', "Fold": "<- MCFold", "Versions": "<- MCVersions", "Ggufs": '{"G1", "G2"}',
-          "Systems": '{"S1", "S2"}', "CreateContinuesAfterFromError": "FALSE"}
+CONSTS = {"Names": '{"a", "A", "b"}', "Fold": "<- MCFold", "Versions": "<- MCVersions", "Ggufs": '{"G1", "G2", "G3"}',
+          "Systems": '{"S1", "S2"}', "Templates": '{"T1"}', "TemplGgufs": '{"G3"}', "CreateContinuesAfterFromError": "FALSE"}
 MC_BODY = "INIT Init\nNEXT Next\nVIEW View\nINVARIANT ListedComplete\nINVARIANT Showable\nINVARIANT NoCaseTwins\nINVARIANT NoCollateral\nCHECK_DEADLOCK FALSE\n"
 GEN_BODY = "INIT Init\nNEXT Next\nCONSTRAINT Emit\nCHECK_DEADLOCK FALSE\n"
 
@@ -37,7 +37,7 @@ def run(tier="quick", seed=1, replay=None):
         if replay:
             behaviours = [json.loads(l) for l in open(replay) if l.strip()]
         else:
-            cfg = vf.write_cfg(wd, "MC_Store.cfg", dict(CONSTS, MaxOps=6 if quick else 8), MC_BODY)
+            cfg = vf.write_cfg(wd, "MC_Store.cfg", dict(CONSTS, MaxOps=5 if quick else 7), MC_BODY)
             r = vf.tlc("MCStore", cfg, wd, timeout=3000)
             vf.tlc_must_pass(r, "Store.tla invariants")
             cov["states"], cov["transitions"] = r["distinct"], r["generated"]
@@ -51,7 +51,7 @@ def run(tier="quick", seed=1, replay=None):
             nopull = [h for h in hs if not any(o["op"] == "pull" for o in h)]
             pulls = [h for h in hs if sum(o["op"] == "pull" for o in h) in (1, 2)]
             pick = nopull[:(250 if quick else 4000)] + pulls[:(12 if quick else 250)]   # a pull costs seconds (1 s per layer)
-            up = [dict(op="upload", n="", m="", g=g, s="none", v="") for g in ("G1", "G2")]
+            up = [dict(op="upload", n="", m="", g=g, s="none", v="", tp="none") for g in ("G1", "G2", "G3")]
             # random histories rarely upload before they create: most get both blobs uploaded first
             behaviours = [dict(t=i + 1, hist=(up + h if i % 6 else h)) for i, h in enumerate(pick)]
             behaviours += vf.load_witnesses(PROP)
